@@ -14,14 +14,20 @@ from . import msgs as M
 
 TRUSTED = ['S-REG: register-file model written from MODBUS AP v1.1b3 (four tables, FC->table map, mask-write formula, write-before-read for FC 23)']
 ASSUMPTIONS = ['tables are backed by distinct block objects unless a unit says otherwise (A6); a layout sharing one block between tables changes both views together because contracts speak about block objects',
-               'in-memory sequential blocks; sparse blocks are covered at block level by C18']
+               'contexts over four sequential blocks or four sparse blocks (arbitrary key sets); mixed layouts are not examined']
 
 CONTRACTS = S.SLAVE_CONTRACTS
+
+
+def is_sparse(blk):
+    return type(blk).__name__ == 'ModbusSparseDataBlock' or getattr(getattr(blk, 'cls', None), 'name', '') == 'ModbusSparseDataBlock'
 
 
 def cell(ctx, t, a):
     """S-REG: value of table t at protocol address a (view through the zero-mode offset)"""
     blk = ctx.store[t]
+    if is_sparse(blk):
+        return L.map_get(blk.values, a + S.offset(ctx))
     return L.at(blk.values, a + S.offset(ctx) - blk.address)
 
 
@@ -34,9 +40,14 @@ def tables_unchanged(E, ctx, before, except_table=None):
     return L.And(*cs)
 
 
-def table_updated(ctx, before, t, a, n, newval):
+def table_updated(ctx, before, t, a, n, newval, E=None):
     """whole-view postcondition: table t equals the old table with cells a..a+n-1 replaced by newval(j)"""
     blk, old = ctx.store[t], before.store[t]
+    if is_sparse(blk):
+        # same key set (the addressed keys were all present: validate), addressed cells replaced, every other cell as before
+        exp = old.values.snapshot() if hasattr(old.values, 'snapshot') else dict(old.values)
+        L.map_set_range(exp, a + S.offset(before), L.seq(n, newval, elem=('bool' if t in S.BIT_TABLES else 'int')))
+        return E.same_state(blk.values, exp) if hasattr(exp, 'snapshot') else blk.values == exp
     s = a + S.offset(before) - old.address
     return L.And(blk.address == old.address, L.length(blk.values) == L.length(old.values),
                  L.forall(0, L.length(old.values), lambda k: L.at(blk.values, k) == L.ite(L.And(s <= k, k < s + n), newval(k - s), L.at(old.values, k))))
@@ -51,7 +62,7 @@ def read_lemma(fc):
     t = S.TABLE_OF_FC[fc]
 
     def lemma(E):
-        ctx = S.slave_context(E)
+        ctx = S.slave_context(E, layout=E.choice('layout', S.LAYOUTS))
         a, c = E.int('address', 0, 65536), E.int('count', 0, 65536)
         req = M.request(E, fc, address=a, count=c)
         before = E.clone(ctx)
@@ -69,14 +80,14 @@ def write_single_lemma(fc):
     t = S.TABLE_OF_FC[fc]
 
     def lemma(E):
-        ctx = S.slave_context(E)
+        ctx = S.slave_context(E, layout=E.choice('layout', S.LAYOUTS))
         a = E.int('address', 0, 65536)
         v = E.bool('value') if fc == 5 else E.int('value', 0, 65536)
         req = M.request(E, fc, address=a, value=v)
         before = E.clone(ctx)
         resp = E.method(req, 'execute', ctx)
         if normal(E, resp, fc):
-            E.prove('write1:exactly-that-cell', table_updated(ctx, before, t, a, 1, lambda j: v))
+            E.prove('write1:exactly-that-cell', table_updated(ctx, before, t, a, 1, lambda j: v, E))
             E.prove('write1:other-tables-unchanged', tables_unchanged(E, ctx, before, except_table=t))
             E.prove('write1:echo', L.And(resp.address == a, L.eq(resp.value, v) if fc == 6 else L.Iff(L.truth(resp.value), v)))
             E.cover('normal')
@@ -89,7 +100,7 @@ def write_multi_lemma(fc):
     t = S.TABLE_OF_FC[fc]
 
     def lemma(E):
-        ctx = S.slave_context(E)
+        ctx = S.slave_context(E, layout=E.choice('layout', S.LAYOUTS))
         a = E.int('address', 0, 65536)
         if fc == 15:
             vals = E.bools('values', maxlen=2040)
@@ -102,7 +113,7 @@ def write_multi_lemma(fc):
         before = E.clone(ctx)
         resp = E.method(req, 'execute', ctx)
         if normal(E, resp, fc):
-            E.prove('writeN:exactly-those-cells', table_updated(ctx, before, t, a, n, lambda j: L.at(vals, j)))
+            E.prove('writeN:exactly-those-cells', table_updated(ctx, before, t, a, n, lambda j: L.at(vals, j), E))
             E.prove('writeN:other-tables-unchanged', tables_unchanged(E, ctx, before, except_table=t))
             E.prove('writeN:echo', L.And(resp.address == a, resp.count == n))
             E.cover('normal')
@@ -112,7 +123,7 @@ def write_multi_lemma(fc):
 
 
 def mask_write_lemma(E):
-    ctx = S.slave_context(E)
+    ctx = S.slave_context(E, layout=E.choice('layout', S.LAYOUTS))
     a, am, om = E.int('address', 0, 65536), E.int('and_mask', 0, 65536), E.int('or_mask', 0, 65536)
     req = M.request(E, 22, address=a, and_mask=am, or_mask=om)
     before = E.clone(ctx)
@@ -121,11 +132,8 @@ def mask_write_lemma(E):
         cur = cell(before, 'h', a)
         # S-REG: Result = (Current AND And_Mask) OR (Or_Mask AND (NOT And_Mask))   [MODBUS AP v1.1b3 6.16]
         want = (cur & am) | (om & (0xffff - am))
-        blk, old = ctx.store['h'], before.store['h']
-        pos = a + S.offset(before) - old.address
-        E.prove('mask:result-formula', L.at(blk.values, pos) == want)
-        E.prove('mask:frame', L.And(blk.address == old.address, L.length(blk.values) == L.length(old.values),
-                                    L.forall(0, L.length(old.values), lambda k: L.Implies(k != pos, L.at(blk.values, k) == L.at(old.values, k)))))
+        E.prove('mask:result-formula', cell(ctx, 'h', a) == want)
+        E.prove('mask:frame', table_updated(ctx, before, 'h', a, 1, lambda j: cell(ctx, 'h', a), E))
         E.prove('mask:other-tables-unchanged', tables_unchanged(E, ctx, before, except_table='h'))
         E.prove('mask:echo', L.And(resp.address == a, resp.and_mask == am, resp.or_mask == om))
         E.cover('normal')
@@ -134,7 +142,7 @@ def mask_write_lemma(E):
 
 
 def rwm_lemma(E):
-    ctx = S.slave_context(E)
+    ctx = S.slave_context(E, layout=E.choice('layout', S.LAYOUTS))
     ra, rc, wa = E.int('read_address', 0, 65536), E.int('read_count', 0, 65536), E.int('write_address', 0, 65536)
     regs = E.ints('write_registers', 0, 65536, maxlen=127)
     n = L.length(regs)
@@ -142,7 +150,7 @@ def rwm_lemma(E):
     before = E.clone(ctx)
     resp = E.method(req, 'execute', ctx)
     if normal(E, resp, 23):
-        E.prove('rwm:write-applied', table_updated(ctx, before, 'h', wa, n, lambda j: L.at(regs, j)))
+        E.prove('rwm:write-applied', table_updated(ctx, before, 'h', wa, n, lambda j: L.at(regs, j), E))
         E.prove('rwm:other-tables-unchanged', tables_unchanged(E, ctx, before, except_table='h'))
         # the write is applied before the read: the response shows the post-write cells
         E.prove('rwm:read-after-write', L.And(L.length(resp.registers) == rc,
@@ -155,7 +163,7 @@ def rwm_lemma(E):
 def table_map(E):
     """function code -> table, against the spec table (finite, exhaustive)"""
     fc = E.choice('fc', sorted(S.TABLE_OF_FC))
-    ctx = S.slave_context(E)
+    ctx = S.slave_context(E, layout=E.choice('layout', S.LAYOUTS))
     E.prove('fx-mapper', E.method(ctx, 'decode', fc) == S.TABLE_OF_FC[fc])
 
 
